@@ -293,6 +293,9 @@ def s2_specs(ctx: Ctx) -> list[dict]:
     else:
         durs = list(range(1, 10001))
     specs = []
+    lin11 = [float(x) for x in np.linspace(0, 1, 11)]
+    for D, dt, obs in [(63, 0.7, [None]), (187, 1.1, [None]), (374, 4.4, [None]), (126, 0.35, [None]), (100, 10.0, [lin11]), (10, 0.1, [[0.3, 0.7]]), (3, 0.1, [None])]:
+        specs.append({"stratum": "S2", "kind": "fixed", "D": D, "mod": False, "dt": dt, "obs": obs, "default": None, "route": "pulserdata"})
     for D in durs:
         cand = [d for d in dts if D / d <= maxpts]
         pick = cand if (D <= 130 and not ctx.quick) else rng.sample(cand, min(len(cand), ctx.pick(3, 4)))
